@@ -30,7 +30,17 @@ tables over domains without an extent 0 (`PosMsgs` / `PosState`) and `total` is 
 the generated `setupModel` selects it, on every successful run of the generated `estimate`, from hypotheses on the inputs
 (domain without extent 0, measured cliques duplicate-free tuples of attributes of the domain, `total > 0`, cold start, no
 structural zeros) and one hypothesis on the loss function (`hgrad`: its gradient is laid out on the model's cliques whenever the
-marginals are valid tables on them — the analogue of `hgrad` in C10E):
+marginals are valid tables on them — the analogue of `hgrad` in C10E).
+
+**CAVEAT (independent audit).  The three theorems of this section are CONDITIONAL on `hgrad`, and the real generated loss
+`LocalG.marginalLossL2` / `L1` does NOT satisfy it**: for 'convex' the gradient is keyed like its argument (by `g.regions`) while
+`hgrad` wants the key order of `g.cliques` (`C18H.hgrad_convex_false`, machine-checked on `exMeas`); for 'approx' / 'pairwise'
+`TablesOn` admits tables with valid values and junk domains, on which the gradient is not laid out
+(`audit/scratch/c18_more.lean`, `hgrad_approx_false`).  They remain true statements about losses that do satisfy `hgrad`
+(e.g. a constant gradient), but THE THEOREMS TO CITE for `LocalInference` are
+`C18H.gen_local_estimate_tables_valid_{pairwise,approx,convex}_{L2,L1}`, which have no hypothesis on the loss.  In addition the
+conclusion `∃ mu st, …` of the 'pairwise' form below is derivable from `Laid dom cl m.potentials` alone (it does not identify
+the `mu` of the run); the C18H form concludes about the `mu` the generated `mirror_descent_auto` run returned.  Conclusions:
 
 * the stored `model.marginals` are the generated oracle's output on the stored `model.potentials`, in a reachable object state;
 * their keys are the model's cliques and every table has strictly positive entries summing to `total`.
@@ -443,7 +453,10 @@ successful run of the generated `estimate` on the object whose `belief_propagati
 `generalized_belief_propagation` / `primal_feasibility` on the graph built by the generated `build_graph`:
 the stored potentials are laid out on the model's cliques, the stored marginals have the model's cliques as keys and every table
 has strictly positive entries summing to `total`, and they are the generated oracle's output on the stored potentials from
-persisted messages `st.messages` satisfying the invariant -/
+persisted messages `st.messages` satisfying the invariant.
+
+CONDITIONAL on `hgrad`, which the generated `_marginal_loss` does NOT satisfy (`TablesOn` admits junk-domain tables; audit
+`hgrad_approx_false`): cite `C18H.gen_local_estimate_tables_valid_approx_L2` / `_L1` (no hypothesis on the loss) instead -/
 theorem gen_local_estimate_tables_valid_approx (dom : Dom) (meas : List (Loss.Meas ℝ)) (T : ℝ) (inner : Nat)
     (loss : CliqueVec ℝ → ℝ × CliqueVec ℝ) {κ : Type}
     (hT : 0 < T) (hdom : PosDom dom) (hmeas : ∀ m ∈ meas, PGM.Convex.RegOK dom m.proj)
@@ -546,7 +559,13 @@ noncomputable def mkFG (reg facC : Dom → List Clique → ℝ → Bool → Nat 
 `FactorGraph` keeps the clique list as given).  The tables `mu` that the generated `mirror_descent` assigns to
 `model.marginals` — the same tables the last `loopy_belief_propagation` call stored there itself
 (`lbp_stores_what_it_returns`) — are the generated oracle's output on the returned `model.potentials`, have the model's
-cliques as keys, and every table has strictly positive entries summing to `total` -/
+cliques as keys, and every table has strictly positive entries summing to `total`.
+
+CONDITIONAL on `hgrad`, which the generated `_marginal_loss` does NOT satisfy; moreover the `∃ mu st, …` part of this
+conclusion follows from `Laid dom cl m.potentials` alone (audit `pairwise_mu_part_is_free`) and so does not identify the `mu`
+the run returned.  Cite `C18H.gen_local_estimate_tables_valid_pairwise_L2` / `_L1`: no hypothesis on the loss, and the
+conclusion is about the `mu` of the run `mirrorDescentAuto … = .ok (l, m.potentials, mu, model', w')`.  `hnd` (measured cliques
+pairwise distinct) is a genuine restriction of the 'pairwise' theorems -/
 theorem gen_local_estimate_tables_valid_pairwise (dom : Dom) (meas : List (Loss.Meas ℝ)) (T : ℝ) (inner : Nat)
     (loss : CliqueVec ℝ → ℝ × CliqueVec ℝ) {κ : Type}
     (hT : 0 < T) (hdom : PosDom dom) (hmeas : ∀ m ∈ meas, PGM.Convex.RegOK dom m.proj)
@@ -685,7 +704,11 @@ theorem genMessagesC_pos (dom : Dom) (cliques : List Clique) (hdom : PosDom dom)
 counting numbers of the generated convex `build_graph` are 1 on every region (`C17G.gen_counting_convex`); `convergence`
 (`1e-3` in `__init__`, not translated) is any `conv`; the damping is whatever the object holds — the late branch of
 `mirror_descent_auto` raises it.  The marginals are keyed by `self.regions` (the order in which `hazan_peng_shashua` fills
-`mu`), the potentials by `self.cliques = sorted(self.regions, key=len)` — the same set -/
+`mu`), the potentials by `self.cliques = sorted(self.regions, key=len)` — the same set.
+
+CONDITIONAL on `hgrad`, which is FALSE for the generated `_marginal_loss` even at well-formed marginals: its gradient is keyed
+by `regions` (like its argument), `hgrad` wants the key order of `cliques` (`C18H.hgrad_convex_false`, machine-checked).  Cite
+`C18H.gen_local_estimate_tables_valid_convex_L2` / `_L1` (no hypothesis on the loss; the update reads the gradient `get`-wise) -/
 theorem gen_local_estimate_tables_valid_convex (dom : Dom) (meas : List (Loss.Meas ℝ)) (T conv : ℝ) (inner : Nat)
     (loss : CliqueVec ℝ → ℝ × CliqueVec ℝ) {κ : Type}
     (hT : 0 < T) (hi : 0 < inner) (hdom : PosDom dom) (hmeas : ∀ m ∈ meas, PGM.Convex.RegOK dom m.proj)
